@@ -78,6 +78,20 @@ func init() {
 			for d := range byProg {
 				digests = append(digests, d)
 			}
+			offs := map[string]bool{}
+			var offList []string
+			for k, v := range m.Extra {
+				if strings.HasPrefix(k, "now-offset/") {
+					if d, ok := v.(string); ok && !offs[d] {
+						offs[d] = true
+						offList = append(offList, k[len("now-offset/"):]+"="+d)
+					}
+				}
+			}
+			if len(offs) > 1 {
+				sort.Strings(offList)
+				m.Violations["C04/timezone-dependence/now-offset"] = &core.Violation{Property: "C04", Sig: "C04/timezone-dependence/now-offset", What: fmt.Sprintf("now() (no OverrideTime) is rendered with an offset that follows the process time zone: %v", offList), Count: 1}
+			}
 			if len(digests) > 1 {
 				sort.Strings(digests)
 				m.Violations["C04/timezone-dependence"] = &core.Violation{Property: "C04", Sig: "C04/timezone-dependence", What: fmt.Sprintf("renderings of the fixed program list differ between process time zones: digests %v (see tz-programs in evidence)", digests), Count: 1}
@@ -141,6 +155,7 @@ func nap(in system.Collection) (system.Collection, error) {
 }
 
 var c04Sources = []string{
+	"Patient.descendants().distinct()", "Patient.descendants().distinct().first()", "%long.distinct()", "%long.distinct().skip(3).take(5)", "%long.distinct().count()", "(%long.select($this & 'x')).distinct().last()",
 	"Patient.name.given", "Patient.name.where(use = 'official').given.first()", "Patient.name.select(family & ', ' & given.first())", "Patient.descendants().count()", "Patient.children().count()",
 	"Patient.name.given.distinct().count()", "Patient.name.exists(family.exists())", "Patient.name.all(given.count() >= 0)", "Patient.telecom.rank.first() + 1", "(1 + 2) * 3 - 4 div 2",
 	"10 / 4", "'abc'.substring(1) & 'é'.upper()", "@2020-01-31 + 1 month", "@T10:30 + 90 minutes", "1 'mg' = 1 'mg'", "Patient.birthDate < today()", "now() = now()", "today().toString()", "timeOfDay().toString()",
@@ -510,6 +525,12 @@ func c04Clock(env *core.Env) {
 		if us < before.UnixMicro()-1000 || us > after.UnixMicro()+1000 {
 			env.Violatef("C04/clock/outside-bracket", "now() = %s lies outside [%s, %s]", parts[0], before.Format(time.RFC3339Nano), after.Format(time.RFC3339Nano))
 		}
+		// the offset now() is rendered with is recorded per process time zone: it must not follow the zone
+		off := "Z"
+		if !strings.HasSuffix(parts[0], "Z") && len(parts[0]) >= 6 {
+			off = parts[0][len(parts[0])-6:]
+		}
+		env.SetExtra("now-offset/"+os.Getenv("TZ"), off)
 		// timeOfDay and today are the time and date parts of the same instant (in now()'s own offset)
 		if !strings.HasPrefix(parts[0], parts[3]+"T") || !strings.Contains(parts[0], "T"+parts[2]) {
 			env.Violatef("C04/clock/not-one-instant", "now()=%s timeOfDay()=%s today()=%s do not denote one instant", parts[0], parts[2], parts[3])
